@@ -478,5 +478,175 @@ theorem unterminated_rejected (q : Char) (hq : isQuote q) (items : List (Esc × 
   ⟨string_prefix_error q hq items hl [] loc fun f l work => ⟨_, lexString_eof q false false (f + 1) l work []⟩,
    string_prefix_error q hq items hl _ loc fun f l work => lexString_backslash_eof q hq false f l work []⟩
 
+/-! ### Part 3 — bytes literals -/
+
+inductive BEsc
+  | named                                  -- `\a \b \f \n \r \t \v \\ \' \"`
+  | hex2 (bigX : Bool) (up : Nat → Bool)   -- `\xHH` / `\XHH`
+  | octal                                  -- `\ooo` (up to `\377`)
+
+/-- One element of a bytes literal: a byte written as an escape, or a character written as itself
+    (which stands for its UTF-8 bytes; a single byte for ASCII). -/
+inductive BItem
+  | byte (e : BEsc) (b : UInt8)
+  | char (c : Char)
+
+def byteNameOf (b : UInt8) : Option Char :=
+  if b = 7 then some 'a' else if b = 8 then some 'b' else if b = 12 then some 'f'
+  else if b = 10 then some 'n' else if b = 13 then some 'r' else if b = 9 then some 't'
+  else if b = 11 then some 'v' else if b = 92 then some '\\' else if b = 39 then some '\''
+  else if b = 34 then some '"' else none
+
+def BItem.value : BItem → List UInt8
+  | .byte _ b => [b]
+  | .char c => utf8Bytes c
+
+def BItem.spell : BItem → List Char
+  | .byte .named b => (match byteNameOf b with | some n => ['\\', n] | none => ['\\', 'x', '0', '0'])
+  | .byte (.hex2 bigX up) b => '\\' :: (if bigX then 'X' else 'x') :: hexFixed up 2 b.toNat
+  | .byte .octal b => '\\' :: octDigits b.toNat
+  | .char c => [c]
+
+def BItem.Legal (q : Char) : BItem → Prop
+  | .byte .named b => (byteNameOf b).isSome = true
+  | .byte _ _ => True
+  | .char c => c ≠ q ∧ c ≠ '\\'
+
+def bencode (items : List BItem) : List Char := items.flatMap BItem.spell
+def bvalue (items : List BItem) : List UInt8 := items.flatMap BItem.value
+
+theorem bspell_ne_nil (i : BItem) : 0 < i.spell.length := by
+  cases i with
+  | char c => simp [BItem.spell]
+  | byte e b =>
+    cases e <;> simp [BItem.spell]
+    split <;> simp
+
+theorem length_le_bencode (items : List BItem) : items.length ≤ (bencode items).length := by
+  induction items with
+  | nil => simp [bencode]
+  | cons p r ih =>
+    have := bspell_ne_nil p
+    simp only [bencode, List.flatMap_cons, List.length_append, List.length_cons] at *; omega
+
+theorem byteNameOf_named (b : UInt8) (n : Char) (h : byteNameOf b = some n) : namedByte n b := by
+  unfold byteNameOf at h
+  unfold namedByte
+  repeat' split at h
+  all_goals first | (injection h with h; subst h; simp_all) | cases h
+
+theorem lexBytes_item (q : Char) (hq : isQuote q) (f : Nat) (i : BItem) (tail : List Char) (loc : Loc)
+    (acc : List UInt8) (hl : i.Legal q) :
+    lexBytes q (f + 1) ⟨i.spell ++ tail, loc⟩ acc =
+      lexBytes q f ⟨tail, advAll loc i.spell⟩ (i.value.reverse ++ acc) := by
+  cases i with
+  | char c => exact lexBytes_plain q f c tail loc acc hl.1 hl.2
+  | byte e b =>
+    cases e with
+    | named =>
+      simp only [BItem.Legal] at hl
+      cases hn : byteNameOf b with
+      | none => simp [hn] at hl
+      | some n =>
+        simp only [BItem.spell, hn, BItem.value]
+        exact lexBytes_named q hq f n b tail loc acc (byteNameOf_named b n hn)
+    | hex2 bigX up =>
+      obtain ⟨h1, h2, _⟩ := hexFixed_spec up b.toNat 2
+      have hv := spelled_hexFixed up 2 b.toNat (by have := b.toNat_lt; omega)
+      simp only [BItem.spell, BItem.value, List.cons_append]
+      exact lexBytes_hex q hq f _ _ tail loc acc b (by cases bigX <;> simp) h1 h2 hv
+    | octal =>
+      obtain ⟨h0, h1, h2, hv⟩ := octDigits_spec b.toNat (by have := b.toNat_lt; omega)
+      simp only [BItem.spell, BItem.value, octDigits, List.cons_append, List.nil_append]
+      exact lexBytes_oct q hq f _ _ _ tail loc acc b h0 h1 h2 hv
+
+theorem lexBytes_items (q : Char) (hq : isQuote q) (items : List BItem) :
+    ∀ (fuel : Nat) (tail : List Char) (loc : Loc) (acc : List UInt8),
+    items.length ≤ fuel → (∀ i ∈ items, i.Legal q) →
+    lexBytes q fuel ⟨bencode items ++ tail, loc⟩ acc =
+      lexBytes q (fuel - items.length) ⟨tail, advAll loc (bencode items)⟩ ((bvalue items).reverse ++ acc) := by
+  induction items with
+  | nil => intro fuel tail loc acc _ _; simp [bencode, bvalue]
+  | cons p r ih =>
+    intro fuel tail loc acc hlen hl
+    cases fuel with
+    | zero => simp at hlen
+    | succ f =>
+      have e1 : bencode (p :: r) = p.spell ++ bencode r := by simp [bencode]
+      have e2 : bvalue (p :: r) = p.value ++ bvalue r := by simp [bvalue]
+      rw [e1, e2, List.append_assoc, lexBytes_item q hq f p _ loc acc (hl p (by simp))]
+      rw [ih f tail _ _ (by simpa using hlen) (fun x hx => hl x (by simp [hx]))]
+      simp [advAll_append]
+
+/-- Bytes literal: any bytes, each written with any legal escape (or characters written as themselves,
+    standing for their UTF-8 bytes), either quote — the token is exactly the byte string spelled. -/
+theorem bytes_roundtrip (q : Char) (hq : isQuote q) (items : List BItem) (hl : ∀ i ∈ items, i.Legal q)
+    (rest : List Char) (loc : Loc) :
+    lexToken ⟨'b' :: q :: bencode items ++ q :: rest, loc⟩ =
+      .ok (some (.bytesLit (bvalue items), ⟨loc, advAll loc ('b' :: q :: bencode items ++ [q])⟩),
+        ⟨rest, advAll loc ('b' :: q :: bencode items ++ [q])⟩) := by
+  rw [List.cons_append, List.cons_append, lexToken_bytes q hq _ loc]
+  have hlen : items.length ≤ (bencode items ++ q :: rest).length + 1 := by
+    have := length_le_bencode items; simp; omega
+  rw [lexBytes_items q hq items _ (q :: rest) _ [] hlen hl]
+  obtain ⟨k, hk⟩ : ∃ k, (bencode items ++ q :: rest).length + 1 - items.length = k + 1 := by
+    have := length_le_bencode items
+    exact ⟨(bencode items ++ q :: rest).length - items.length, by simp; omega⟩
+  rw [hk, lexBytes_close]
+  simp [finish, advAll_append]
+
+/-- Every byte string is the value of a literal: all bytes as `\xHH`, say. -/
+theorem bytes_roundtrip_all (q : Char) (hq : isQuote q) (bs : List UInt8) (e : UInt8 → BEsc)
+    (he : ∀ b ∈ bs, (BItem.byte (e b) b).Legal q) (rest : List Char) (loc : Loc) :
+    ∃ sp sc, lexToken ⟨'b' :: q :: bencode (bs.map fun b => .byte (e b) b) ++ q :: rest, loc⟩ =
+      .ok (some (.bytesLit bs, sp), sc) := by
+  have hv : ∀ l : List UInt8, bvalue (l.map fun b => BItem.byte (e b) b) = l := by
+    intro l
+    induction l with
+    | nil => rfl
+    | cons b r ih => simp [bvalue, BItem.value] at *; exact ih
+  have hl : ∀ i ∈ bs.map (fun b => BItem.byte (e b) b), i.Legal q := by
+    intro i hi; simp at hi; obtain ⟨b, hb, rfl⟩ := hi; exact he b hb
+  have := bytes_roundtrip q hq _ hl rest loc
+  rw [hv bs] at this
+  exact ⟨_, _, this⟩
+
+theorem bytes_prefix_error (q : Char) (hq : isQuote q) (items : List BItem) (hl : ∀ i ∈ items, i.Legal q)
+    (bad : List Char) (loc : Loc)
+    (hbad : ∀ f l acc, ∃ e, lexBytes q (f + 1) ⟨bad, l⟩ acc = .error e) :
+    ∃ e, lexToken ⟨'b' :: q :: bencode items ++ bad, loc⟩ = .error e := by
+  rw [List.cons_append, List.cons_append, lexToken_bytes q hq _ loc]
+  have hlen : items.length ≤ (bencode items ++ bad).length + 1 := by
+    have := length_le_bencode items; simp; omega
+  rw [lexBytes_items q hq items _ bad _ [] hlen hl]
+  obtain ⟨k, hk⟩ : ∃ k, (bencode items ++ bad).length + 1 - items.length = k + 1 := by
+    have := length_le_bencode items
+    exact ⟨(bencode items ++ bad).length - items.length, by simp; omega⟩
+  obtain ⟨e, he⟩ := hbad k (advAll ((loc.adv 'b').adv q) (bencode items)) ((bvalue items).reverse ++ [])
+  exact ⟨e, by rw [hk, he]; rfl⟩
+
+/-- In a bytes literal: an octal escape above `\377`, a malformed octal escape, a truncated `\x`,
+    a missing closing quote. -/
+theorem bytes_malformed_rejected (q : Char) (hq : isQuote q) (items : List BItem) (hl : ∀ i ∈ items, i.Legal q)
+    (loc : Loc) :
+    (∀ d0 d1 d2 tail, isOct d0 = true → isOct d1 = true → isOct d2 = true →
+        255 < (d0.toNat - 48) * 64 + (d1.toNat - 48) * 8 + (d2.toNat - 48) →
+        ∃ e, lexToken ⟨'b' :: q :: bencode items ++ '\\' :: d0 :: d1 :: d2 :: tail, loc⟩ = .error e) ∧
+    (∀ d0 body, isDigit d0 = true →
+        (body.length < 2 ∨ ∃ d1 d2 t, body = d1 :: d2 :: t ∧ (isOct d0 && isOct d1 && isOct d2) = false) →
+        ∃ e, lexToken ⟨'b' :: q :: bencode items ++ '\\' :: d0 :: body, loc⟩ = .error e) ∧
+    (∀ x hs tail, (x = 'x' ∨ x = 'X') → hs.length < 2 → (∀ c ∈ hs, (hexDigitVal c).isSome = true) →
+        (∀ c, tail.head? = some c → hexDigitVal c = none) →
+        ∃ e, lexToken ⟨'b' :: q :: bencode items ++ '\\' :: x :: (hs ++ tail), loc⟩ = .error e) ∧
+    (∃ e, lexToken ⟨'b' :: q :: bencode items ++ [], loc⟩ = .error e) := by
+  refine ⟨?_, ?_, ?_, ?_⟩
+  · intro d0 d1 d2 tail h0 h1 h2 hv
+    exact bytes_prefix_error q hq items hl _ loc fun f l acc => lexBytes_oct_big q hq f d0 d1 d2 tail l acc h0 h1 h2 hv
+  · intro d0 body hd h
+    exact bytes_prefix_error q hq items hl _ loc fun f l acc => lexBytes_oct_bad q hq f d0 body l acc hd h
+  · intro x hs tail hx hn hh ht
+    exact bytes_prefix_error q hq items hl _ loc fun f l acc => lexBytes_hex_short q hq f x hs tail l acc hx hn hh ht
+  · exact bytes_prefix_error q hq items hl [] loc fun f l acc => ⟨_, lexBytes_eof q (f + 1) l acc⟩
+
 end C13
 end Rscel
